@@ -106,7 +106,7 @@ struct RPos { line: usize, col: usize, file: usize, builtin: bool }
 #[derive(Clone, Debug)]
 struct RenderObs { files: Vec<(String, String)>, pos: Option<RPos>, msg: String, addl: Vec<(RPos, String)>, out: Result<String, PanicAt> }
 #[derive(Clone, Debug, Default)]
-struct CaseOut { stages: Vec<Stage>, renders: Vec<RenderObs>, n_diag: usize, checked_ok: bool }
+struct CaseOut { stages: Vec<Stage>, renders: Vec<RenderObs>, n_diag: usize, checked_ok: bool, cost: Option<(usize, usize)> }
 
 impl CaseOut {
     fn ok(&mut self, name: &'static str) { self.stages.push(Stage { name, res: "ok", panic: None, tags: vec![] }); }
@@ -249,9 +249,15 @@ fn dup_import_targets(ext: &OperationExtension) -> bool {
 // ------------------------------------------------------------------------------------------------
 // the pipelines
 
-struct Ops<'a, 'src>(BTreeMap<&'a Path, (&'a OperationDocument<'src>, &'a OperationExtension<'src>)>);
+/// in-memory resolver that counts how often a file is asked for (= file resolutions of the import resolver) and
+/// stops answering once the count is far beyond the linear bound, so a super-linear resolver ends quickly
+struct Ops<'a, 'src> { files: BTreeMap<&'a Path, (&'a OperationDocument<'src>, &'a OperationExtension<'src>)>, calls: std::cell::Cell<usize>, budget: usize }
 impl<'src> OperationResolver<'src> for Ops<'_, 'src> {
-    fn resolve(&self, path: &Path) -> Option<(&OperationDocument<'src>, &OperationExtension<'src>)> { self.0.get(path).copied() }
+    fn resolve(&self, path: &Path) -> Option<(&OperationDocument<'src>, &OperationExtension<'src>)> {
+        self.calls.set(self.calls.get() + 1);
+        if self.calls.get() > self.budget { return None; }
+        self.files.get(path).copied()
+    }
 }
 
 fn scalar_config(sdl: &str) -> String {
@@ -360,10 +366,20 @@ fn run_op_case(sdl: &str, ops: &[String], keep_renders: bool, allow_cyclic: bool
         }
     }
     out.ok("resolve_operation_extensions");
-    let resolver = Ops(exts.iter().map(|(p, d, e)| (p.as_path(), (d, e))).collect());
+    let nfiles = exts.len();
+    let resolver = Ops { files: exts.iter().map(|(p, d, e)| (p.as_path(), (d, e))).collect(), calls: std::cell::Cell::new(0), budget: 16 * nfiles + 256 };
     let mut full = vec![];
     for (p, d, e) in exts.iter() {
-        match guarded(|| resolve_operation_imports((p, d, e), &resolver)) {
+        resolver.calls.set(0);
+        let r = guarded(|| resolve_operation_imports((p, d, e), &resolver));
+        // C08_imports_linear: every file is entered at most once, so the resolver is asked at most once per file
+        // (+ 1 for the lookup that ends a run with FileNotFound)
+        if resolver.calls.get() > nfiles + 1 {
+            out.stages.push(Stage { name: "resolve_operation_imports", res: "cost-exceeded", panic: None, tags: vec![] });
+            out.cost = Some((resolver.calls.get(), nfiles));
+            return out;
+        }
+        match r {
             Err(pa) => { let tags = if dup_import_targets(e) { vec!["duplicate-import-target"] } else { vec![] }; out.panic("resolve_operation_imports", pa, tags); return out; }
             Ok(Err(e)) => {
                 out.err("resolve_operation_imports");
@@ -615,6 +631,24 @@ fn deep_schemas(d: usize) -> Vec<(String, &'static str)> {
     ]
 }
 
+/// layered import DAG without cycles: file q0 is the root operation, layer k (0-based) has `width` files
+/// q{1 + k*width + j}, each importing from every file of layer k+1; fragments do not spread each other, so
+/// only import resolution sees the sharing.  The number of import *paths* is width^depth.
+fn import_dag(depth: usize, width: usize, wildcard: bool) -> Vec<String> {
+    let idx = |k: usize, j: usize| 1 + k * width + j;
+    let imports = |k: usize| -> String {
+        (0..width).map(|j| if wildcard { format!("#import * from \"./q{}.graphql\"\n", idx(k, j)) } else { format!("#import F{}_{} from \"./q{}.graphql\"\n", k, j, idx(k, j)) }).collect()
+    };
+    let mut files = vec![format!("{}query Q {{ i ...F0_0 }}\n", imports(0))];
+    for k in 0..depth {
+        for j in 0..width {
+            let imp = if k + 1 < depth { imports(k + 1) } else { String::new() };
+            files.push(format!("{imp}fragment F{k}_{j} on Query {{ i }}\n"));
+        }
+    }
+    files
+}
+
 // ------------------------------------------------------------------------------------------------
 // Coq terms
 
@@ -662,6 +696,7 @@ struct Run {
     n_parse_cases: usize,
     limit: Duration,
     scratch: PathBuf,
+    dag_ms: Vec<J>,
 }
 impl Run {
     fn note(&mut self, stream: &str, key: String) { *self.dist.entry(stream.to_string()).or_default().entry(key).or_default() += 1; }
@@ -693,6 +728,11 @@ impl Run {
         };
         if out.stages.iter().any(|s| s.res == "deferred-to-child") {
             if let Some((sdl, ops)) = &op_payload { self.child_case(stream, kind, sdl, ops, &input); }
+        }
+        if let Some((calls, nfiles)) = out.cost {
+            self.fail("cost:resolve_operation_imports:file-resolutions-exceed-files".into(),
+                      format!("resolve_operation_imports asks the resolver for a file {}{} times for {} files (every file must be entered at most once: C08_imports_linear); the work is not linear in the import graph", if calls > 16 * nfiles + 256 { "more than " } else { "" }, calls.min(16 * nfiles + 256), nfiles),
+                      json!({"stream": stream, "kind": kind, "stage": "resolve_operation_imports", "input": input}));
         }
         for st in &out.stages {
             self.note(stream, format!("{}:{}", st.name, st.res));
@@ -803,7 +843,7 @@ fn main() {
         direct: vec![], per_class: BTreeMap::new(), dist: BTreeMap::new(), distinct: HashSet::new(), nontrivial: 0, evaluations: 0,
         max_ms: 0, slow: vec![], samples: vec![], render_budget: if thorough { 2400 } else { 600 }, parse_budget: if thorough { 1600 } else { 330 },
         n_render_cases: 0, n_parse_cases: 0, limit: Duration::from_secs(if thorough { 60 } else { 20 }),
-        scratch: args.out.join("scratch"),
+        scratch: args.out.join("scratch"), dag_ms: vec![],
     };
     let scale = if thorough { 24 } else { 1 };
 
@@ -992,6 +1032,28 @@ fn main() {
         run.limit = keep;
     }
 
+    // ---- layered shared-import DAGs: import resolution must stay linear (each file entered once), under the watchdog
+    {
+        let keep = run.limit;
+        run.limit = Duration::from_secs(if thorough { 20 } else { 10 });
+        let mut dag_ms: Vec<J> = vec![];
+        for &depth in &[5usize, 20, 30, 40] {
+            for &width in &[2usize, 3] {
+                for &wild in &[true, false] {
+                    let files = import_dag(depth, width, wild);
+                    println!("import DAG depth {depth} width {width} wildcard {wild}");
+                    let t0 = Instant::now();
+                    run.case("import-dag", "import-dag", Job::Op(FIXED_SCHEMA.into(), files.clone()),
+                             json!({"what": "layered shared-import DAG", "depth": depth, "width": width, "wildcard": wild, "schema": "FIXED_SCHEMA",
+                                    "files": files.iter().enumerate().map(|(i, t)| json!({"path": format!("/p/ops/q{i}.graphql"), "text": t})).collect::<Vec<_>>()}));
+                    dag_ms.push(json!([depth, width, wild, t0.elapsed().as_millis() as u64]));
+                }
+            }
+        }
+        run.limit = keep;
+        run.dag_ms = dag_ms;
+    }
+
     // ---- configuration texts
     let base_cfg = ["schema: ./schema/*.graphql\ndocuments:\n  - ./ops/*.graphql\nextensions:\n  nitrogql:\n    plugins:\n      - nitrogql:model-plugin\n    generate:\n      mode: with-loader-ts-5.0\n      schemaOutput: ./out/schema.d.ts\n      type:\n        scalarTypes:\n          Date: string\n          Money: { send: string, receive: number }\n      name:\n        operationResultTypeSuffix: Result\n      export:\n        defaultExportForOperation: false\n      emitSchemaRuntime: true\n",
                     "{\"schema\": [\"a.graphql\", \"b.graphql\"], \"documents\": \"x\", \"extensions\": {\"nitrogql\": {\"generate\": {\"type\": {\"allowUndefinedAsOptionalInput\": false}}}}}"];
@@ -1077,6 +1139,7 @@ fn main() {
         projects.push(("lone surrogate escape", vsdl.clone(), vec!["query Q { __typename @skip(if: \"\\uD800\") }\n".into()], None, vec!["unicode-escape"]));
         projects.push(("unspread fragment with unknown field", vsdl.clone(), vec![format!("query Q {{ __typename }}\nfragment U on {q} {{ nonexistent }}\n")], None, vec!["unspread-fragment"]));
         projects.push(("fragment cycle that no operation reaches", FIXED_SCHEMA.into(), vec!["query Q { i }\nfragment A on Query { a { ...A } }\n".into()], None, vec!["unspread-fragment-cycle"]));
+        projects.push(("layered shared-import DAG, depth 30, width 2", FIXED_SCHEMA.into(), import_dag(30, 2, true), None, vec![]));
         projects.push(("duplicate import target", vsdl.clone(), vec![format!("#import FA, FA from \"./q1.graphql\"\nquery Q {{ ...FA }}\n"), format!("fragment FA on {q} {{ __typename }}\n")], None, vec!["duplicate-import-target"]));
         for (k, (what, schema, ops, cfg, tags)) in projects.iter().enumerate() {
             let dir = base.join(format!("p{k}"));
@@ -1089,8 +1152,31 @@ fn main() {
             for w in lex(schema).windows(2) { if w[0] == "scalar" && w[1] != "String" && w[1].chars().all(|c| c.is_ascii_alphanumeric()) { y.push_str(&format!("          {}: string\n", w[1])); } }
             std::fs::write(dir.join("graphql.config.yaml"), cfg.clone().unwrap_or(y)).unwrap();
             let fmt = ["human", "json", "rdjson"][k % 3];
-            let o = std::process::Command::new(cli).current_dir(&dir).env("NO_COLOR", "1").env("RUST_BACKTRACE", "0").args(["--output-format", fmt, "check", "generate"]).output();
+            // the CLI under a wall-clock bound: stdout/stderr go to files, the child is killed when the bound passes
+            let cli_limit = Duration::from_secs(if thorough { 60 } else { 30 });
+            let (fo, fe) = (std::fs::File::create(dir.join("stdout.txt")).unwrap(), std::fs::File::create(dir.join("stderr.txt")).unwrap());
+            let spawned = std::process::Command::new(cli).current_dir(&dir).env("NO_COLOR", "1").env("RUST_BACKTRACE", "0").args(["--output-format", fmt, "check", "generate"])
+                .stdin(std::process::Stdio::null()).stdout(fo).stderr(fe).spawn();
             run.evaluations += 1;
+            let o: std::io::Result<std::process::Output> = match spawned {
+                Err(e) => Err(e),
+                Ok(mut child) => {
+                    let t0 = Instant::now();
+                    let mut status = None;
+                    while t0.elapsed() < cli_limit { if let Ok(Some(st)) = child.try_wait() { status = Some(st); break; } std::thread::sleep(Duration::from_millis(20)); }
+                    match status {
+                        Some(st) => Ok(std::process::Output { status: st, stdout: std::fs::read(dir.join("stdout.txt")).unwrap_or_default(), stderr: std::fs::read(dir.join("stderr.txt")).unwrap_or_default() }),
+                        None => {
+                            let _ = child.kill(); let _ = child.wait();
+                            *cli_stats.entry("timeout".into()).or_default() += 1;
+                            run.fail_k("timeout:cli".into(), format!("nitrogql-cli does not finish within {} s on project '{what}'", cli_limit.as_secs()),
+                                       json!({"stream": "cli", "project": what, "schema": schema, "operations": ops, "config": cfg, "output_format": fmt}), usize::MAX);
+                            let _ = std::fs::remove_dir_all(&dir);
+                            continue;
+                        }
+                    }
+                }
+            };
             match o {
                 Err(e) => run.fail("cli-spawn".into(), format!("cannot run the CLI: {e}"), json!({"project": what})),
                 Ok(o) => {
@@ -1129,6 +1215,7 @@ fn main() {
         "coq_render_cases": run.n_render_cases, "coq_parse_cases": run.n_parse_cases,
         "max_case_ms": run.max_ms as u64, "slow_cases": run.slow.iter().take(5).collect::<Vec<_>>(),
         "list_type_nesting_depth_ms": list_type_ms,
+        "import_dag_depth_width_wildcard_ms": run.dag_ms,
         "cli_exit_codes": cli_stats, "per_case_time_limit_s": run.limit.as_secs(),
     });
     write_meta(&args.out, &json!({
